@@ -48,7 +48,7 @@ def gen_ops(rng, focus, nmax=25, extreme=False):
     if rng.random() < 0.85:
         ops.append({'op': rng.choice(['loadfunc', 'update', 'loaddata']), 'dist': gen_dist(rng)})
     weights = {'step': 8 if focus == 'C07' else 3, 'update': 2, 'loadfunc': 1, 'loaddata': 1, 'add': 2, 'remesh': 3, 'adjust': 3,
-               'backup': 1.5, 'revert': 1.5, 'reset': 0.7, 'reset_keep': 0.7, 'adaptive': 0.5, 'moments': 2}
+               'backup': 1.5, 'revert': 1.5, 'reset': 0.7, 'reset_keep': 0.7, 'adaptive': 0.5, 'moments': 2, 'load_recorded': 1.0}
     names = list(weights)
     w = [weights[k] for k in names]
     for _ in range(n):
@@ -71,6 +71,9 @@ def gen_ops(rng, focus, nmax=25, extreme=False):
             ops.append({'op': 'adaptive', 'on': rng.random() < 0.5})
         elif k == 'moments':
             ops.append({'op': 'moments', 'dist': gen_dist(rng), 'order': rng.choice([0, 1, 2, 3, 0.5, 2.5])})
+        elif k == 'load_recorded':
+            # 'load' of a recorded distribution: position relative to the recorded time span (before the first, on a record, between two, after the last)
+            ops.append({'op': 'load_recorded', 'frac': rng.choice([-0.2, 0.0, 1.0, 1.3, round(rng.random(), 3), round(rng.random(), 3)]), 'snap': rng.random() < 0.5})
         else:
             ops.append({'op': k})
     return ops
@@ -196,6 +199,8 @@ class Machine:
         self.pbm = PopulationBalanceModel(c['cMin'], c['cMax'], c['bins'], c['minBins'], c['maxBins'])
         self.pbm.setAdaptiveBinSize(rec['adaptive'])
         self.adaptive = rec['adaptive']
+        if any(o['op'] == 'load_recorded' for o in rec['ops']):
+            self.pbm.enableRecording()        # every update op then records (time, distribution, grid)
         self.backup = None           # snapshot at the latest createBackup
         self.t = 0.0
         self.sig = set()
@@ -456,6 +461,40 @@ class Machine:
 
     def op_record(self, k, op):
         self.pbm.enableRecording()
+
+    def op_load_recorded(self, k, op):
+        p = self.pbm
+        rt = None if p._recordedTime is None else np.asarray(p._recordedTime, dtype=float)
+        if rt is None or len(rt) == 0:
+            return
+        lo, hi = float(rt[0]), float(rt[-1])
+        t = lo + op['frac'] * (hi - lo) if hi > lo else lo
+        if op.get('snap') and len(rt) > 1:
+            t = float(rt[int(round(min(max(op['frac'], 0.0), 1.0) * (len(rt) - 1)))])     # exactly on a recorded time
+        p.setPSDtoRecordedTime(t)
+        self.sig.add('load_recorded')
+        # loading exactly a recorded time (or outside the span) must give exactly that record
+        idx = None
+        if t <= lo:
+            idx = 0
+        elif t >= hi:
+            idx = len(rt) - 1
+        if idx is not None:
+            rb = np.asarray(p._recordedBins[idx], dtype=float)
+            rp = np.asarray(p._recordedPSD[idx], dtype=float)
+            # recorded rows are zero-padded to a common length; the row written when recording was switched on is all zeros and stands
+            # for the initial, empty grid
+            nz = int(np.count_nonzero(rb))
+            if nz == 0:
+                c = self.cfg
+                want_b = np.linspace(c['cMin'], max(10 * c['cMin'], c['cMax']), c['bins'] + 1)
+                want_p = np.zeros(c['bins'])
+            else:
+                want_b, want_p = rb[:nz], rp[:nz - 1]
+            if not np.array_equal(want_b, np.asarray(p.PSDbounds, dtype=float)) or not np.array_equal(want_p, np.asarray(p.PSD, dtype=float)):
+                self.F.add('C08.load_recorded', f'op {k}: loading the recorded time {t!r} (record {idx} of {len(rt)}) did not restore that record', op='load_recorded')
+        if self.backup is not None:
+            self.backup['since'].append('load_recorded')
 
     def op_moments(self, k, op):
         p = self.pbm
